@@ -59,6 +59,10 @@ static ec_curve_str_t toy_curves[] = {
 	TOY("E8C4",   2,  8,  "fb",   "02",   "24",   "02",   "35",   "3b",   4, 0),
 	TOY("E13",    4,  13, "1fff", "04d2", "0031", "000f", "0cde", "1f99", 1, 0),
 	TOY("E16M3",  4,  16, "fff1", "ffee", "000a", "0006", "1c90", "fe9f", 1, EC_CURVE_FLAG_A_M3),
+	/* specs/ec/EcCurvesX.tla: one curve per special-cased shape, groups that contain points with x = 0 and y = 0 */
+	TOY("E8M3X",  2,  8,  "fb",   "f8",   "a9",   "27",   "75",   "71",   2, EC_CURVE_FLAG_A_M3),
+	TOY("E8M3Xnf",2,  8,  "fb",   "f8",   "a9",   "27",   "75",   "71",   2, 0), /* same curve through the generic-a path */
+	TOY("E8ZX",   2,  8,  "ad",   "00",   "15",   "83",   "52",   "1d",   6, 0),
 };
 
 /* ---- number I/O that does not go through the library's own import/export code ---- */
